@@ -2,6 +2,22 @@
 """Regenerates MANIFEST.json from the table below (kept in one place so that it stays valid)."""
 import json, sys
 CHECKS = {
+ "C01": dict(
+   text="ML-KEM-512/768/1024 and Kyber-512/768/1024 decapsulation decided to be exactly the Fujisaki-Okamoto transform of FIPS 203 Alg. 18 / Kyber r3 Alg. 9 for EVERY ciphertext (all ciphertext bytes symbolic), incl. the implicit-rejection branch, the constant-time compare over all bytes and the conditional copy; encaps-then-decaps returns the secret for every seed under the K-PKE correctness axiom.",
+   note="Glue level: K-PKE Enc/Dec and the Keccak permutation are uninterpreted functions (the sponge code above the permutation is real); hybrids, X-Wing, Frodo and HPKE KEMs not yet covered; counterexamples are model-level (not natively replayable).",
+   ref="§4 C01"),
+ "C09": dict(
+   text="Canonical decoding decided by SMT: goldilocks.FromBytes accepts only inputs that re-serialise to the parsed bytes (symbolic last byte and trailing bytes around a concrete valid y), its y-range check equals integer comparison with p for every 56-byte string, and the ML-KEM encapsulation-key check accepts exactly the keys whose 12-bit coefficients are all < q (k = 2,3,4) and re-encodes accepted keys identically.",
+   note="Subgroup / on-curve mathematics is outside the technique; BLS12-381, FourQ and NIST-curve decoders not yet covered for canonicity (their panic-freedom is under C10).",
+   ref="§4 C09"),
+ "C11": dict(
+   text="Decode-into-used-object equals decode-into-fresh-object decided for all pre-states and inputs (csidh public/private key import); more frame conditions planned.",
+   note="Sequential frame/stale-state conditions only; data races in the Go-memory-model sense are outside the technique.",
+   ref="§4 C11"),
+ "C15": dict(
+   text="KeccakF1600 (24 and 12 rounds) equals a Keccak-p[1600] reference written from FIPS 202 (rho/pi from their recurrences, round constants from the rc(t) LFSR) for an arbitrary 1600-bit state; sponge step lemmas from an ARBITRARY absorbing state (arbitrary lanes, buffer fill and buffered bytes): Write equals byte-wise absorption (any chunking by induction), first Read pads with the domain byte and 0x80 and squeezes like the byte-wise sponge, for rates 136/168 (others thorough).",
+   note="Permutation is an uninterpreted function in the sponge lemmas; equalities hold by AC-normalised term identity or SMT; Ascon, K12, BLAKE2X, expanders and SIMD permutations not yet covered; generic xor.go selected by build tag appengine (the unaligned variant uses unsafe).",
+   ref="§4 C15"),
  "C13": dict(
    text="Scalar-recoding mechanisms of fixed-base multiplication decided by SMT: ed25519 condAddOrderN, div2subY and one recoding step from an arbitrary state (m = 2m' + digit, no borrow lost), for every value; the algebraic group law is not claimed.",
    note="Deliberately narrow: only integer recoding mechanisms (DESIGN §4 C13); group law, exceptional cases, pairings and hash-to-curve are outside the technique.",
